@@ -43,9 +43,14 @@ def generate(master, index, tier):
     rng = R.rng_for(master, PROP, index)
     n = rng.choice((1, 2, 3, 5, 8, 12, 20))
     items = []
+    p_copy = rng.choice((0.0, 0.0, 0.2))
     for _ in range(n):
         r = rng.random()
-        if r < 0.45:
+        prev = [it for it in items if it[0] == "frame"]
+        if prev and rng.random() < p_copy:
+            dmg, tag = W.damaged_copy(rng, bytes.fromhex(rng.choice(prev)[1]))
+            items.append(["bad", dmg.hex(), tag])
+        elif r < 0.45:
             items.append(W.gen_undecodable(rng))
         elif r < 0.6:
             items.append(W.gen_bad(rng))
@@ -57,8 +62,14 @@ def generate(master, index, tier):
             items.append(W.gen_nmea(rng) if rng.random() < 0.5 else W.gen_ubx(rng))
         else:
             items.append(["bad", W.sync_dense(rng, rng.choice((1, 3, 10, 40))).hex(), "junk"])
+    long_run = index % 50 == 7
+    if long_run:
+        # deep error history: > 1000 consecutive rejected items, sometimes closed by a valid frame
+        items = W.gen_long_error_run(rng, rng.choice((300, 1100, 1600, 2500)))
+        if rng.random() < 0.5:
+            items.append(W.gen_frame(rng))
     kind = rng.choice(("bytesio", "buffered", "serial", "serial", "socket", "socket"))
-    sched = W.gen_fault_sched(rng, kind, items, rng.random() < 0.3)
+    sched = W.gen_fault_sched(rng, kind, items, rng.random() < 0.3 or long_run)
     if kind == "serial":
         sched["seg"] = rng.choice(("full", "full", "full", "random", "small"))
     return {
